@@ -497,10 +497,11 @@ fn decomp_case<R: HR>(s: &mut Sink, pools: &Pools, a: &SpMat<R>, what: &str)
 where for<'x> &'x R: RingOps<R> {
     let req = format!("decomp {} {}", R::TAG, sp_req(a));
     let (m, n) = a.shape();
-    type Out<R> = (Vec<usize>, Vec<usize>, Vec<Dn<R>>);
+    type Out<R> = (Vec<usize>, Vec<usize>, Vec<Dn<R>>, Vec<String>);
     let res: Vec<Option<Out<R>>> = pools.run(|| {
         let (p, q, bl) = dir_sum_decomp(a.clone());
-        ((0..p.dim()).map(|i| p.at(i)).collect(), (0..q.dim()).map(|j| q.at(j)).collect(), bl.iter().map(Dn::from_sp).collect())
+        ((0..p.dim()).map(|i| p.at(i)).collect(), (0..q.dim()).map(|j| q.at(j)).collect(), bl.iter().map(Dn::from_sp).collect(),
+         bl.iter().map(sp_req).collect())
     });
     let txts: Vec<Option<String>> = res.iter().map(|x| x.as_ref().map(|o|
         format!("{:?} {:?} {}", o.0, o.1, o.2.iter().map(|b| b.txt()).collect::<Vec<_>>().join(" ; ")))).collect();
@@ -513,7 +514,7 @@ where for<'x> &'x R: RingOps<R> {
         if sz == 0 { s.case(&req, "panic", true); }
         return;
     };
-    let (p, q, bl) = o;
+    let (p, q, bl, blreq) = o;
     s.count(&format!("decomp.blocks.{}", bl.len().min(6)));
     // permutations
     let is_perm = |v: &Vec<usize>, k: usize| v.len() == k && { let mut w = v.clone(); w.sort(); w == (0..k).collect::<Vec<_>>() };
@@ -521,6 +522,7 @@ where for<'x> &'x R: RingOps<R> {
     s.oracle(perm_ok, "the returned row/column maps are permutations of the right size", &req, &format!("{:?} {:?}", p, q));
     let (hr, hc): (usize, usize) = (bl.iter().map(|b| b.m).sum(), bl.iter().map(|b| b.n).sum());
     let mut reply = String::from("panic");
+    let mut identity_ok = false;
     if perm_ok {
         let ad = Dn::from_sp(a);
         let mut pm = Dn::<R>::zero(m, n);
@@ -531,6 +533,7 @@ where for<'x> &'x R: RingOps<R> {
             let (mut ro, mut co) = (0, 0);
             for b in bl { for i in 0..b.m { for j in 0..b.n { bd.set(ro + i, co + j, b.at(i, j).clone()); } } ro += b.m; co += b.n; }
         }
+        identity_ok = fits && pm == bd;
         s.oracle(fits && pm == bd, "permuted matrix = block-diagonal sum of the returned blocks + zero rows/columns", &req,
             &format!("permuted {} blocks {}", pm.txt(), txts[0].clone().unwrap_or_default()));
         if sz == 0 {
@@ -550,6 +553,13 @@ where for<'x> &'x R: RingOps<R> {
         }
     }
     if sz == 0 { s.case(&req, &reply, bl.len() >= 2); } else { s.eval_only(&req, bl.len() >= 2); }
+    // the real output judged by the Lean-verified checker (`checkDecomp_sound`), stored zeros or not
+    let nl = |v: &Vec<usize>| std::iter::once(v.len().to_string()).chain(v.iter().map(|x| x.to_string())).collect::<Vec<_>>().join(" ");
+    let chk = format!("chkdecomp {} {} {} {} {}{}", R::TAG, sp_req(a), nl(p), nl(q), blreq.len(),
+        blreq.iter().map(|b| format!(" {}", b)).collect::<String>());
+    s.case(&chk, if identity_ok { "1" } else { "0" }, bl.len() >= 2);
+    // the model's own decomposition judged by the same checker
+    s.case(&format!("decompchk {} {}", R::TAG, sp_req(a)), "1", bl.len() >= 2);
 }
 
 fn gen_decomp<R: HR>(s: &mut Sink, r: &mut Rng, pools: &Pools, big: bool)
